@@ -66,6 +66,7 @@ def do_case(ctx, inp):
         ctx.op({"op": "add_seq", "cfg": before, "rules": [snap(ro)]}, {"t": snap(new)})
         if new.id != cur.id:
             ctx.case(inp, True, tg); ctx.fail("id-not-kept", {"old": cur.id, "new": new.id}); return
+        prev_ast = cur_ast
         cur_ast = {"c": "Stingy", "args": cur_ast["args"] + [r], "id": cur.id}
         direct = build(cur_ast)
         oa, ob = observe(new, prio), observe(direct, prio)
@@ -73,6 +74,14 @@ def do_case(ctx, inp):
             if oa[k] != ob[k]:
                 ctx.case(inp, True, tg)
                 ctx.fail("add-differs-from-direct-construction", {"what": k, "added_rule": r, "via_add": oa[k], "direct": ob[k]}); return
+        # "leaves the original configurator unchanged" also after the extended one has been used (the two share rule objects)
+        if snap(cur) != before or snap(o) != t0:
+            ctx.case(inp, True, tg)
+            ctx.fail("using-the-extended-configurator-changed-the-original", {"rule": r, "before": before, "after": snap(cur)}); return
+        fresh_prev = build(prev_ast)
+        if sorted([k, int(v)] for k, v in cur.default_prios.items()) != sorted([k, int(v)] for k, v in fresh_prev.default_prios.items()):
+            ctx.case(inp, True, tg)
+            ctx.fail("using-the-extended-configurator-changed-the-original", {"rule": r, "what": "default_prios of the original differ from a freshly built one"}); return
         cur = new
     ctx.case(inp, nontrivial=accepted > 0, tags=tg | {f"accepted-{accepted}"})
 
@@ -89,6 +98,15 @@ def gen_rule(rng, t, k):
         r["id"] = rng.choice([c["id"] for c in t["kids"]])      # an existing top-level rule or item id
     elif x < 0.85:
         r["id"] = f"NEW{k}"
+    anon = [n for n in subs(t) if n["k"] == "node" and n["gen"] and n["cls"] == "Any" and n["kids"] and all(k["k"] == "leaf" and (k["lo"], k["hi"]) == (0, 1) for k in n["kids"])]
+    if anon and rng.random() < 0.3:
+        # a defaulted choice whose non-default alternatives are exactly an anonymous "any of" group the configurator
+        # already contains: the generated helper node coincides (id and definition) with that existing sub-rule
+        grp_ids = [k["id"] for k in rng.choice(anon)["kids"]]
+        others = [x for x in bools if x not in grp_ids] or ["zz"]
+        d = rng.choice(others)
+        r.update(c=rng.choice(["ccAny", "ccXor"]), args=[{"c": "str", "id": x} for x in grp_ids] + [{"c": "str", "id": d}], default=[d])
+        return r
     if kind in ("Any", "All"): r.update(c=kind, args=grp(rng.randint(1, 3)))
     elif kind == "AtMost": r.update(c="AtMost", v=1, args=grp(rng.randint(2, 3)))
     elif kind in ("ccAny", "ccXor"):
